@@ -93,6 +93,26 @@ def analyse(ctx: Ctx, classes: dict, decorators: dict | None, where: str, rel: s
             why = field_uses_only_in_comparisons(fn, {a.arg for a in fn.args.args})
             if why:
                 unproved.append(f"{cn}.__eq__: {why}")
+    # identity comparison of field values is never structural equality: equal values held in distinct objects (a uri
+    # built at run time, an int outside the small-int cache, two Position objects) compare unequal
+    for cn, meths in (("Position", ("__eq__", "__gt__", "__lt__", "__le__", "__ge__", "__ne__")), ("Range", ("__eq__", "__ne__")),
+                      ("Location", ("__eq__", "__ne__"))):
+        for m_ in meths:
+            fn_ = classes[cn].get(m_)
+            if fn_ is None:
+                continue
+            pn = {a.arg for a in fn_.args.args}
+            for node in ast.walk(fn_):
+                if isinstance(node, ast.Compare) and any(isinstance(op, (ast.Is, ast.IsNot)) for op in node.ops):
+                    operands = [node.left] + list(node.comparators)
+                    field_ops = [o for o in operands if isinstance(o, ast.Attribute) and isinstance(o.value, ast.Name) and o.value.id in pn]
+                    const_ops = [o for o in operands if isinstance(o, ast.Constant) and o.value in (None, True, False)]
+                    if field_ops and not const_ops:
+                        ctx.fail("field-compared-by-identity", f"{where}:{cn}.{m_}:{ast.unparse(node)[:50]}",
+                                 f"{cn}.{m_} compares `{ast.unparse(node)}` by identity: equal values held in distinct objects "
+                                 "compare unequal", rel, node.lineno)
+    unproved = [u for u in unproved if not ("unsupported comparison operator" in u and any(
+        f.rule == "field-compared-by-identity" for f in ctx.findings))]
     grid = GRID
     if unproved:
         # The side condition that lets 4^4 order-representatives decide all pairs does not hold (the fields
@@ -253,3 +273,23 @@ def run(ctx: Ctx):
                     for n in ast.walk(utree))
         ctx.check(emits, "decorators", "utils.py:Position:total_ordering",
                   "the generator no longer emits @functools.total_ordering for Position", P_PYUTILS)
+
+
+_run_before_ranges = run
+
+
+def run(ctx: Ctx):  # noqa: F811
+    _run_before_ranges(ctx)
+    # the order is claimed for all positions with line / character in 0..2^31-1: every such value must be constructible (accept set of uinteger_validator, decided in C12)
+    from ..common import Ctx as _Ctx, AnalysisError as _AE
+    from . import c12 as _c12
+    sub = _Ctx(ctx.prop, ctx.tier, ctx.seed, ctx.src, quiet=True)
+    try:
+        _c12._run_validators(sub)
+    except _AE:
+        pass
+    hits = [f for f in sub.findings if f.rule == "accept-in-range" and "uinteger" in f.construct]
+    for f in hits:
+        ctx.fail("position-domain-complete", f.construct, f.message, f.file, f.line)
+    if not hits:
+        ctx.ok("position-domain-complete")
